@@ -81,7 +81,7 @@ func NewLevelListFromDocument(fs storage.FileSystem, dataOwnership kv.DataOwners
 }
 
 func (ll *LevelList) Get(key []byte) (kv.Entry, error) {
-	for t := range ll.AllTablesForKey(key) {
+	for t := range ll.tablesForKeyNewestFirst(key) {
 		v, err := t.Get(key)
 		if err != nil {
 			if err == kv.ErrNotFound {
@@ -196,6 +196,31 @@ func (ll *LevelList) AllTablesForKey(key []byte) iter.Seq[*Table] {
 			}
 		}
 		// go through each L1+ level and collect a table that might have the key
+		for level := range ll.DescendLevels(1) {
+			levelTables := level.tables.Slice()
+			foundIndex, ok := sliceu.SearchUnique(levelTables, key, (*Table).RangeKeyCompare)
+			if !ok {
+				continue
+			}
+			if !yield(levelTables[foundIndex]) {
+				return
+			}
+		}
+	}
+}
+
+// tablesForKeyNewestFirst yields the tables AllTablesForKey does but in the
+// order a point lookup must search them: level 0 tables overlap and are added
+// oldest first, so they are visited in reverse; then one table per deeper level.
+func (ll *LevelList) tablesForKeyNewestFirst(key []byte) iter.Seq[*Table] {
+	return func(yield func(*Table) bool) {
+		for _, t := range slices.Backward(ll.At(0).tables.Slice()) {
+			if t.RangeContainsKey(key) {
+				if !yield(t) {
+					return
+				}
+			}
+		}
 		for level := range ll.DescendLevels(1) {
 			levelTables := level.tables.Slice()
 			foundIndex, ok := sliceu.SearchUnique(levelTables, key, (*Table).RangeKeyCompare)
